@@ -164,6 +164,17 @@ func (e *Engine) runIntrinsic(s *State, fr *Frame, name string, in Intrinsic, ar
 	e.mu.Lock()
 	e.IntrUsed[name]++
 	e.mu.Unlock()
+	if e.Cfg.Verbose && s.InitMode == 0 {
+		var as []string
+		for _, a := range args {
+			sv := showValue(a)
+			if len(sv) > 100 {
+				sv = sv[:100] + "…"
+			}
+			as = append(as, sv)
+		}
+		s.Trace = append(s.Trace, strings.Repeat(" ", len(s.Frames)+1)+"*"+name+"("+strings.Join(as, ", ")+")")
+	}
 	c := &CallCtx{E: e, S: s, Fr: fr, Res: res, Pos: pos, Name: name, Fn: fn}
 	nframes := len(s.Frames)
 	outs := in(c, args)
